@@ -43,18 +43,32 @@ impl<'a> BerDecoder<'a> for SnmpReal {
 
                 // 8.5.7.4 Bits 2 to 1 of the first contents octet
                 // shall encode the format of the exponent as follows:
-                let ln = (f & 0x03) as usize + 2;
-                let e = SnmpReal::parse_u32(&i[1..ln]) as i32;
-                let mut v: f64 = SnmpReal::parse_u32(&i[ln..]).into();
+                // 00 - one octet, 01 - two octets, 10 - three octets,
+                // 11 - the next octet holds the length of the exponent
+                let (e_start, e_len) = match f & 0x03 {
+                    3 => (2, *i.get(1).ok_or(SnmpError::InvalidData)? as usize),
+                    n => (1, n as usize + 1),
+                };
+                let e_end = e_start + e_len;
+                // Mantissa wider than 128 bits is not supported
+                if e_len == 0 || i.len() < e_end || i.len() - e_end > 16 {
+                    return Err(SnmpError::InvalidData);
+                }
+                // Exponent is two's complement binary number
+                let mut e: i64 = if i[e_start] & 0x80 == 0 { 0 } else { -1 };
+                for &n in i[e_start..e_end].iter() {
+                    e = e.saturating_mul(256).saturating_add(n as i64);
+                }
+                // 8.5.7.5: Mantissa is unsigned binary integer
+                let mut n = 0u128;
+                for &x in i[e_end..].iter() {
+                    n = (n << 8) | (x as u128);
+                }
+                let mut v = n as f64;
                 // 8.5.7.3: Bits 4 to 3 of the first contents octet shall
                 // encode the value of the binary scaling factor F
                 // as an unsigned binary integer.
-                match (f & 0x0c) >> 2 {
-                    1 => v *= 2.0,
-                    2 => v *= 4.0,
-                    3 => v *= 8.0,
-                    _ => return Err(SnmpError::InvalidData),
-                }
+                let scale = ((f & 0x0c) >> 2) as i64;
                 // 8.5.7.2: Bits 6 to 5 of the first contents octets
                 // shall encode the value of the base B' as follows:
                 // Bits6to5 => Base
@@ -62,13 +76,22 @@ impl<'a> BerDecoder<'a> for SnmpReal {
                 // 01 => base 8
                 // 10 => base 16
                 // 11 => Reserved for further editions of this Recommendation | International Standard.
-                let base: f64 = match f & 0x30 {
-                    0 => 2.0,
-                    0x10 => 8.0,
-                    0x20 => 16.0,
+                let base_bits: i64 = match f & 0x30 {
+                    0 => 1,
+                    0x10 => 3,
+                    0x20 => 4,
                     _ => return Err(SnmpError::InvalidData),
                 };
-                v *= base.powi(e);
+                // M = S * N * 2^F * B^E, apply the power of two by exact steps
+                let mut p = base_bits
+                    .saturating_mul(e)
+                    .saturating_add(scale)
+                    .clamp(-4000, 4000);
+                while p != 0 && v != 0.0 && v.is_finite() {
+                    let step = p.clamp(-1000, 1000);
+                    v *= 2.0f64.powi(step as i32);
+                    p -= step;
+                }
                 // 8.5.7.1: Bit 7 of the first contents octets
                 // shall be 1 if S is –1 and 0 otherwise.
                 if f & 0x40 == 0x40 {
@@ -110,16 +133,6 @@ impl<'a> BerDecoder<'a> for SnmpReal {
             0b01000011 => -0.0,
             _ => return Err(SnmpError::InvalidData),
         }))
-    }
-}
-
-impl SnmpReal {
-    fn parse_u32(i: &[u8]) -> u32 {
-        let mut v = 0u32;
-        for &n in i.iter() {
-            v = (v << 8) | (n as u32);
-        }
-        v
     }
 }
 
